@@ -93,6 +93,20 @@ def mutants(block, rng, bytes_of):
         p = l.split(" ")
         b = re.search(r"IndexOperand\((\d+)\)", l).group(1)
         res.append(("dropped-get-locator", p[1], rep(k, "ins %s %s %d DefVar { binding_index: IndexOperand(%s) }" % (p[1], p[2], bytes_of["DefVar"], b))))
+    # 11 an iterator loop exit / jump record that forgets to close its record (IteratorReturn -> Move, same operands and length)
+    rets = [(k, l) for k, l in ins if " IteratorReturn { value: RegisterOperand(" in l]
+    if rets:
+        k, l = rng.choice(rets)
+        p = l.split(" ")
+        rs = re.findall(r"RegisterOperand\((\d+)\)", l)
+        res.append(("dropped-iterator-close", p[1], rep(k, "ins %s %s %d Move { dst: RegisterOperand(%s), src: RegisterOperand(%s) }" % (p[1], p[2], bytes_of["Move"], rs[0], rs[1]))))
+    # 12 a GetIterator that pushes no record (-> ValueNotNullOrUndefined, same operand and length)
+    gets = [(k, l) for k, l in ins if " GetIterator { src: RegisterOperand(" in l]
+    if gets:
+        k, l = rng.choice(gets)
+        p = l.split(" ")
+        r = re.search(r"RegisterOperand\((\d+)\)", l).group(1)
+        res.append(("dropped-get-iterator", p[1], rep(k, "ins %s %s %d ValueNotNullOrUndefined { src: RegisterOperand(%s) }" % (p[1], p[2], bytes_of["ValueNotNullOrUndefined"], r))))
     # 10 opcode byte that is not the one the decoder printed
     if ins:
         k, l = rng.choice(ins)
